@@ -20,7 +20,8 @@ pub fn caps_for_kind(kind: u8) -> &'static [usize] {
         5 => &[0, 1, 3],
         6 => &[0, 1, 2, 3, 4, 6],
         7 => &[0, 1, 2],
-        _ => &[0, 1, 2, 3, 4, 6, 9],
+        8 => &[0, 1, 2, 3, 4, 6, 9],
+        _ => &[0, 1, 2, 3, 4, 6],
     }
 }
 
